@@ -197,6 +197,9 @@ pub fn run(id: &str, o: &Oracle, tier: &str, seed: u64, w: &mut dyn Write) -> Op
                 let h = rand_cards(o, &mut rng, n);
                 out.ev(json!({"op": if n == 5 {"rank5"} else {"rankn"},"words":hilo_arr(&h)}));
             }
+            for v in [0u32, 1, 10, 11, 166, 167, 1599, 1600, 7462, 7463, 65535] {
+                out.ev(json!({"op":"adv_hr","v":v}));
+            }
         }
         "C07" => {
             let interesting: Vec<u32> = vec![0, 1, 2, 10, 11, 166, 167, 322, 323, 1599, 1600, 1609, 1610, 2467, 2468, 3325, 3326, 6185, 6186, 7461, 7462, 7463, 7464, 8000, 32767, 32768, 65534, 65535];
@@ -470,6 +473,21 @@ pub fn run(id: &str, o: &Oracle, tier: &str, seed: u64, w: &mut dyn Write) -> Op
             for n in 2..=7u64 {
                 out.ev(json!({"op":"c_default","n":n}));
             }
+            // advisory extensions: serde round trip and the derived (lexicographic) ordering of containers
+            for k in 0..150 * scale {
+                let n = [2usize, 4, 5, 6, 7][(k % 5) as usize];
+                let w: Vec<u32> = (0..n).map(|_| rng.u32()).collect();
+                out.ev(json!({"op":"adv_serde","words":hilo_arr(&w)}));
+                let n2 = 2 + (k % 6) as usize;
+                let a: Vec<u32> = (0..n2).map(|_| if rng.below(2) == 0 { near_miss(o, &mut rng) } else { rng.u32() }).collect();
+                let mut b = a.clone();
+                if rng.below(4) != 0 {
+                    let i = rng.below(n2 as u64) as usize;
+                    b[i] = if rng.below(2) == 0 { b[i].wrapping_add(1) } else { rng.u32() };
+                }
+                out.ev(json!({"op":"adv_cmp","a":hilo_arr(&a),"b":hilo_arr(&b)}));
+            }
+            out.ev(json!({"op":"adv_consts"}));
         }
         _ => return None,
     }
